@@ -755,6 +755,9 @@ func (s *Server) netServe() error {
 								wg.Done()
 								detached = true
 								log.Debugf("Detached connection: %s", client.remoteAddr)
+								// the commands that arrived in the same read as this one,
+								// and the error of that read, are for the live connection.
+								client.pr.unreadAfter(msg)
 
 								var wg2 sync.WaitGroup
 								wg2.Add(1)
@@ -1623,6 +1626,21 @@ type PipelineReader struct {
 	wr     io.Writer
 	packet [0xFFFF]byte
 	buf    []byte
+	// what the last ReadMessages call returned, and the part of it that was
+	// handed back with unreadAfter: the next call returns that part first.
+	last, pending       []*Message
+	lastErr, pendingErr error
+}
+
+// unreadAfter hands the messages that the last ReadMessages call returned
+// after msg, and the error of that call, back to the reader.
+func (rd *PipelineReader) unreadAfter(msg *Message) {
+	for i, m := range rd.last {
+		if m == msg {
+			rd.pending, rd.pendingErr = rd.last[i+1:], rd.lastErr
+			break
+		}
+	}
 }
 
 const kindHTTP redcon.Kind = 9999
@@ -1841,6 +1859,11 @@ func safeReadNextCommand(packet []byte, argsIn [][]byte, msg *Message, wr io.Wri
 // ReadMessages ...
 func (rd *PipelineReader) ReadMessages() ([]*Message, error) {
 	var msgs []*Message
+	if len(rd.pending) > 0 || rd.pendingErr != nil {
+		msgs, err := rd.pending, rd.pendingErr
+		rd.pending, rd.pendingErr = nil, nil
+		return msgs, err
+	}
 moreData:
 	n, err := rd.rd.Read(rd.packet[:])
 	if err != nil {
@@ -1898,6 +1921,7 @@ moreData:
 	} else if len(rd.buf) > 0 {
 		rd.buf = rd.buf[:0]
 	}
+	rd.last, rd.lastErr = msgs, err
 	return msgs, err
 }
 
